@@ -120,6 +120,8 @@ def _site_coverage(ck, repo, w):
             ck.ob(f"{f.name}: the {s.rule} site validates the node this parser just built", ok, f, s.call, construct=f"subject:{f.name}:{s.rule}")
             ok = fv.all_paths_to_return_pass([s.call], start=st)
             ck.ob(f"{f.name}: the {s.rule} site lies on every path from the construction to the return", ok, f, s.call, construct=f"always:{f.name}:{s.rule}")
+            rets = fv.returns()
+            ck.ob(f"{f.name}: returns the node it built and validated", len(rets) == 1 and unparse(rets[0].value) == built, f, rets[0] if rets else f.node, construct=f"returns:{f.name}")
         elif f.name in ("_parse_arguments", "_parse_directives", "_parse_object_fields", "_parse_variable_definitions"):
             # list-level: validates the list it returns
             rets = [r for r in fv.returns() if isinstance(r.value, ast.Name)]
@@ -128,6 +130,12 @@ def _site_coverage(ck, repo, w):
             comp = [n for n in walk_no_nested(f.node) if isinstance(n, ast.ListComp)]
             ok = len(comp) == 1 and unparse(comp[0].generators[0].iter) == f.positional_params[0] and not comp[0].generators[0].ifs
             ck.ob(f"{f.name}: every element of the incoming list is parsed", ok, f, comp[0] if comp else f.node, construct=f"all-elements:{f.name}")
+    pa = w.trans.func("_parse_argument")
+    pv = FuncView(pa)
+    ctor = pv.maybe_call("ArgumentNode")
+    rets = pv.returns()
+    built = unparse(pv.stmt_of(ctor).targets[0]) if ctor is not None and isinstance(pv.stmt_of(ctor), ast.Assign) else None
+    ck.ob("_parse_argument returns the node it built", built is not None and len(rets) == 1 and unparse(rets[0].value) == built, pa, rets[0] if rets else pa.node, construct="returns:_parse_argument")
     # paths are threaded
     for s in w.sites:
         p = s.kw.get("path")
